@@ -383,7 +383,12 @@ where
                         return (Some(Token::Operator(Operator::GreaterThanEqual)), None);
                     }
                 }
-                b'\xef' if matches!(self.utf8, Utf8Bom::Unknown) => {
+                // a byte order mark can only be at the very start of the data
+                b'\xef'
+                    if matches!(self.utf8, Utf8Bom::Unknown)
+                        && ptr == self.buf.start
+                        && self.buf.position() == 0 =>
+                {
                     match self.buf.window().get(..3) {
                         Some([0xef, 0xbb, 0xbf]) => {
                             self.utf8 = Utf8Bom::Present;
